@@ -38,6 +38,11 @@ def PixelsAgree (m n s : Sample R) : Prop :=
 def CoordsEq (a b : Sample R) : Prop :=
   a.instances = b.instances ∧ a.centroids = b.centroids ∧ a.bbox = b.bbox
 
+/-- "same configuration" for the number of NaN padding rows: the chunk functions are handed the
+`max_instances` the torch dataset computes from its own labels (`get_bin_files.py` hands the TRAIN
+labels' maximum to the validation chunks as well: see `val_glue_only_padding`) -/
+def SameGlue (cfg : Cfg R) : Prop := chunkMaxInstOf cfg = cfg.maxInstances
+
 theorem shape_erase (N : Num R) (raw : Nat × Nat × Nat) (i : Img R) :
     shape N raw i.erase = shape N raw i := Pipelines.shape_erase N raw i
 
@@ -52,7 +57,7 @@ example : centroidOf (R := Rat) (some 0) (scaleInst (1/2) [none, some (4, 6), so
 /-! ## single-instance and bottom-up: any scale -/
 
 theorem plain_agree (N : Num R) (cfg : Cfg R) (fr : Frame R) (k : Nat)
-    (hmt : cfg.mt = .single ∨ cfg.mt = .bottomup) :
+    (hmt : cfg.mt = .single ∨ cfg.mt = .bottomup) (hglue : SameGlue cfg) :
     PixelsAgree (sampleOf N .mem cfg fr k) (sampleOf N .np cfg fr k) (sampleOf N .stream cfg fr k) ∧
     CoordsEq (sampleOf N .np cfg fr k) (sampleOf N .mem cfg fr k) ∧
     CoordsEq (sampleOf N .stream cfg fr k) (sampleOf N .mem cfg fr k) ∧
@@ -61,13 +66,14 @@ theorem plain_agree (N : Num R) (cfg : Cfg R) (fr : Frame R) (k : Nat)
   rcases hmt with h | h
   · simp [sampleOf, sampleOfH, h, torchPlain, streamPlain, PixelsAgree, CoordsEq, Img.erase, Img.quants,
       dsMaxH, dsMaxW, dsMaxInst, Tree.current, processLf_num, q8If]
-  · simp [sampleOf, sampleOfH, h, torchPlain, streamPlain, PixelsAgree, CoordsEq, Img.erase, Img.quants,
-      dsMaxH, dsMaxW, dsMaxInst, Tree.current, processLf_num, q8If]
+  · have hg : chunkMaxInstOf cfg = cfg.maxInstances := hglue
+    simp [sampleOf, sampleOfH, h, torchPlain, streamPlain, PixelsAgree, CoordsEq, Img.erase, Img.quants,
+      dsMaxH, dsMaxW, dsMaxInst, Tree.current, processLf_num, q8If, hg]
 
 /-! ## centroid: any positive scale -/
 
 theorem centroid_agree (N : Num R) (cfg : Cfg R) (fr : Frame R) (k : Nat)
-    (hmt : cfg.mt = .centroid) (hs : 0 < cfg.scale) :
+    (hmt : cfg.mt = .centroid) (hs : 0 < cfg.scale) (hglue : SameGlue cfg) :
     PixelsAgree (sampleOf N .mem cfg fr k) (sampleOf N .np cfg fr k) (sampleOf N .stream cfg fr k) ∧
     CoordsEq (sampleOf N .np cfg fr k) (sampleOf N .mem cfg fr k) ∧
     (sampleOf N .stream cfg fr k).centroids = (sampleOf N .mem cfg fr k).centroids ∧
@@ -75,6 +81,7 @@ theorem centroid_agree (N : Num R) (cfg : Cfg R) (fr : Frame R) (k : Nat)
     (cfg.scale = 1 → (sampleOf N .stream cfg fr k).instances = (sampleOf N .mem cfg fr k).instances) ∧
     (sampleOf N .np cfg fr k).numInstances = (sampleOf N .mem cfg fr k).numInstances ∧
     (sampleOf N .stream cfg fr k).numInstances = (sampleOf N .mem cfg fr k).numInstances := by
+  have hg : chunkMaxInstOf cfg = cfg.maxInstances := hglue
   have key : applyResizerCen cfg.scale
         ((List.map (scaleInst (effScale N fr (chunkMaxH cfg) (chunkMaxW cfg))) (processLf cfg.maxInstances fr.insts).1).map
           (centroidOf cfg.anchor))
@@ -86,20 +93,20 @@ theorem centroid_agree (N : Num R) (cfg : Cfg R) (fr : Frame R) (k : Nat)
     · rfl
     · exact (map_centroidOf_scale cfg.scale hs cfg.anchor _).symm
   refine ⟨?_, ?_, ?_, ?_, ?_, ?_, ?_⟩
-  · simp [sampleOf, sampleOfH, dsMaxH, dsMaxW, Tree.current, hmt, torchCentroid, streamCentroid, PixelsAgree, Img.erase, Img.quants, q8If]
+  · simp [sampleOf, sampleOfH, dsMaxH, dsMaxW, Tree.current, hmt, torchCentroid, streamCentroid, hg, PixelsAgree, Img.erase, Img.quants, q8If]
   · simp [sampleOf, sampleOfH, dsMaxH, dsMaxW, Tree.current, hmt, torchCentroid, CoordsEq]
-  · simpa [sampleOf, sampleOfH, dsMaxH, dsMaxW, Tree.current, hmt, torchCentroid, streamCentroid] using key
-  · simp [sampleOf, sampleOfH, dsMaxH, dsMaxW, Tree.current, hmt, torchCentroid, streamCentroid]
+  · simpa [sampleOf, sampleOfH, dsMaxH, dsMaxW, Tree.current, hmt, torchCentroid, streamCentroid, hg, hg] using key
+  · simp [sampleOf, sampleOfH, dsMaxH, dsMaxW, Tree.current, hmt, torchCentroid, streamCentroid, hg, hg]
   · intro h1
-    simp [sampleOf, sampleOfH, dsMaxH, dsMaxW, Tree.current, hmt, torchCentroid, streamCentroid, applyResizerPts, h1]
+    simp [sampleOf, sampleOfH, dsMaxH, dsMaxW, Tree.current, hmt, torchCentroid, streamCentroid, hg, applyResizerPts, h1]
   · simp [sampleOf, sampleOfH, dsMaxH, dsMaxW, Tree.current, hmt, torchCentroid]
-  · simp [sampleOf, sampleOfH, dsMaxH, dsMaxW, Tree.current, hmt, torchCentroid, streamCentroid, processLf_num]
+  · simp [sampleOf, sampleOfH, dsMaxH, dsMaxW, Tree.current, hmt, torchCentroid, streamCentroid, hg, processLf_num]
 
 /-! ## centred instance: scale 1 -/
 
 theorem centered_agree_scale1 (N : Num R) (cfg : Cfg R) (fr : Frame R) (k : Nat)
     (hmt : cfg.mt = .centered) (hs : cfg.scale = 1)
-    (hN : ∀ n : Nat, N.trunc (N.cast n * 1) = n) (hk : k < (nonEmpty fr.insts).length) :
+    (hN : N.mulTrunc cfg.cropH 1 = cfg.cropH ∧ N.mulTrunc cfg.cropW 1 = cfg.cropW) (hk : k < (nonEmpty fr.insts).length) :
     PixelsAgree (sampleOf N .mem cfg fr k) (sampleOf N .np cfg fr k) (sampleOf N .stream cfg fr k) ∧
     CoordsEq (sampleOf N .np cfg fr k) (sampleOf N .mem cfg fr k) ∧
     CoordsEq (sampleOf N .stream cfg fr k) (sampleOf N .mem cfg fr k) ∧
@@ -107,20 +114,20 @@ theorem centered_agree_scale1 (N : Num R) (cfg : Cfg R) (fr : Frame R) (k : Nat)
     (nonEmpty fr.insts = fr.insts →
       (sampleOf N .stream cfg fr k).numInstances = (sampleOf N .mem cfg fr k).numInstances) ∧
     (sampleOf N .np cfg fr k).img = (sampleOf N .stream cfg fr k).img := by
-  have hget : (processLf cfg.maxInstances fr.insts).1[k]? = some ((nonEmpty fr.insts)[k]) := by
+  have hget : (processLf (chunkMaxInstOf cfg) fr.insts).1[k]? = some ((nonEmpty fr.insts)[k]) := by
     rw [processLf_getElem? _ _ _ hk]; exact List.getElem?_eq_getElem hk
   have hget' : (nonEmpty fr.insts)[k]? = some ((nonEmpty fr.insts)[k]) := List.getElem?_eq_getElem hk
-  have hN' : ∀ n : Nat, N.trunc (N.cast n) = n := fun n => by simpa using hN n
+  obtain ⟨hN1, hN2⟩ := hN
   refine ⟨?_, ?_, ?_, ?_, ?_, ?_⟩
   · simp [sampleOf, sampleOfH, dsMaxH, dsMaxW, Tree.current, hmt, torchCentered, streamCentered, recrop, generateCrops, PixelsAgree, Img.erase,
-      Img.quants, hs, hN', applyResizer, applyResizerPts, hget, hget', q8If]
+      Img.quants, hs, hN1, hN2, applyResizer, applyResizerPts, hget, hget', q8If]
   · simp [sampleOf, sampleOfH, dsMaxH, dsMaxW, Tree.current, hmt, torchCentered, recrop, generateCrops, CoordsEq]
-  · simp [sampleOf, sampleOfH, dsMaxH, dsMaxW, Tree.current, hmt, torchCentered, streamCentered, recrop, generateCrops, CoordsEq, hs, hN',
+  · simp [sampleOf, sampleOfH, dsMaxH, dsMaxW, Tree.current, hmt, torchCentered, streamCentered, recrop, generateCrops, CoordsEq, hs, hN1, hN2,
       applyResizer, applyResizerPts, hget, hget']
   · simp [sampleOf, sampleOfH, dsMaxH, dsMaxW, Tree.current, hmt, torchCentered, recrop]
   · intro hne
     simp [sampleOf, sampleOfH, dsMaxH, dsMaxW, Tree.current, hmt, torchCentered, streamCentered, recrop, processLf_num, hne]
-  · simp [sampleOf, sampleOfH, dsMaxH, dsMaxW, Tree.current, hmt, torchCentered, streamCentered, recrop, generateCrops, hs, hN', applyResizer,
+  · simp [sampleOf, sampleOfH, dsMaxH, dsMaxW, Tree.current, hmt, torchCentered, streamCentered, recrop, generateCrops, hs, hN1, hN2, applyResizer,
       applyResizerPts, hget, hget', q8If]
 
 /-! ## the two statements of the property -/
@@ -131,8 +138,8 @@ single-instance model (b2232cf) any more.  `hk`: `k` addresses an existing non-e
 `hN`: `int(n * 1.0) = n`.  Beyond the statement (metadata): `num_instances` of the centred-instance
 streaming sample agrees when the frame has no empty instance. -/
 theorem frameworks_agree_scale1 (N : Num R) (cfg : Cfg R) (fr : Frame R) (k : Nat)
-    (hs : cfg.scale = 1)
-    (hN : ∀ n : Nat, N.trunc (N.cast n * 1) = n)
+    (hs : cfg.scale = 1) (hglue : SameGlue cfg) (_hne : nonEmpty fr.insts ≠ [])
+    (hN : N.mulTrunc cfg.cropH 1 = cfg.cropH ∧ N.mulTrunc cfg.cropW 1 = cfg.cropW)
     (hk : cfg.mt = .centered → k < (nonEmpty fr.insts).length) :
     PixelsAgree (sampleOf N .mem cfg fr k) (sampleOf N .np cfg fr k) (sampleOf N .stream cfg fr k) ∧
     CoordsEq (sampleOf N .np cfg fr k) (sampleOf N .mem cfg fr k) ∧
@@ -143,13 +150,13 @@ theorem frameworks_agree_scale1 (N : Num R) (cfg : Cfg R) (fr : Frame R) (k : Na
   have hpos : (0 : R) < cfg.scale := by rw [hs]; exact one_pos
   cases hmt : cfg.mt with
   | single =>
-    obtain ⟨a, b, c, d, e⟩ := plain_agree N cfg fr k (Or.inl hmt)
+    obtain ⟨a, b, c, d, e⟩ := plain_agree N cfg fr k (Or.inl hmt) hglue
     exact ⟨a, b, c, d, fun _ => e⟩
   | bottomup =>
-    obtain ⟨a, b, c, d, e⟩ := plain_agree N cfg fr k (Or.inr hmt)
+    obtain ⟨a, b, c, d, e⟩ := plain_agree N cfg fr k (Or.inr hmt) hglue
     exact ⟨a, b, c, d, fun _ => e⟩
   | centroid =>
-    obtain ⟨a, b, c, d, e, f, g⟩ := centroid_agree N cfg fr k hmt hpos
+    obtain ⟨a, b, c, d, e, f, g⟩ := centroid_agree N cfg fr k hmt hpos hglue
     exact ⟨a, b, ⟨e hs, c, d⟩, f, fun _ => g⟩
   | centered =>
     obtain ⟨a, b, c, d, e, _⟩ := centered_agree_scale1 N cfg fr k hmt hs hN (hk hmt)
@@ -159,7 +166,7 @@ theorem frameworks_agree_scale1 (N : Num R) (cfg : Cfg R) (fr : Frame R) (k : Na
 terms agree up to one round trip; the points the targets are drawn from (`instances`, resp.
 `centroids` for the centroid model) are the same; `num_instances` is the same. -/
 theorem frameworks_agree_any_scale (N : Num R) (cfg : Cfg R) (fr : Frame R) (k : Nat)
-    (hmt : cfg.mt ≠ .centered) (hs : 0 < cfg.scale) :
+    (hmt : cfg.mt ≠ .centered) (hs : 0 < cfg.scale) (hglue : SameGlue cfg) (_hne : nonEmpty fr.insts ≠ []) :
     PixelsAgree (sampleOf N .mem cfg fr k) (sampleOf N .np cfg fr k) (sampleOf N .stream cfg fr k) ∧
     CoordsEq (sampleOf N .np cfg fr k) (sampleOf N .mem cfg fr k) ∧
     (sampleOf N .stream cfg fr k).centroids = (sampleOf N .mem cfg fr k).centroids ∧
@@ -168,13 +175,13 @@ theorem frameworks_agree_any_scale (N : Num R) (cfg : Cfg R) (fr : Frame R) (k :
     (sampleOf N .stream cfg fr k).numInstances = (sampleOf N .mem cfg fr k).numInstances := by
   cases h : cfg.mt with
   | single =>
-    obtain ⟨a, b, c, d, e⟩ := plain_agree N cfg fr k (Or.inl h)
+    obtain ⟨a, b, c, d, e⟩ := plain_agree N cfg fr k (Or.inl h) hglue
     exact ⟨a, b, c.2.1, fun _ => c.1, d, e⟩
   | bottomup =>
-    obtain ⟨a, b, c, d, e⟩ := plain_agree N cfg fr k (Or.inr h)
+    obtain ⟨a, b, c, d, e⟩ := plain_agree N cfg fr k (Or.inr h) hglue
     exact ⟨a, b, c.2.1, fun _ => c.1, d, e⟩
   | centroid =>
-    obtain ⟨a, b, c, _, _, f, g⟩ := centroid_agree N cfg fr k h hs
+    obtain ⟨a, b, c, _, _, f, g⟩ := centroid_agree N cfg fr k h hs hglue
     exact ⟨a, b, c, fun hne => absurd rfl hne, f, g⟩
   | centered => exact absurd h hmt
 
@@ -185,20 +192,24 @@ def cfg1 : Cfg Rat :=
     scale := 1/2, maxStride := 16, cropH := 32, cropW := 32, anchor := some 0, maxInstances := 2,
     aliasing := false }
 
-example : cfg1.mt ≠ .centered ∧ 0 < cfg1.scale := by
-  refine ⟨by decide, by norm_num [cfg1]⟩
+example : cfg1.mt ≠ .centered ∧ 0 < cfg1.scale ∧ SameGlue cfg1 ∧
+    nonEmpty ([[none, some ((3 : Rat), 4)], [none, none]] : List (Inst Rat)) ≠ [] := by
+  refine ⟨by decide, by norm_num [cfg1], rfl, by decide⟩
 
-example : ∀ n : Nat, numRat.trunc (numRat.cast n * 1) = n := by
-  intro n
-  have : ((n : Rat)).floor = (n : Int) := by rw [← Int.cast_natCast, Rat.floor_intCast]
-  simp [numRat, this]
+/-- `int(48 * 1.0) = 48`, `int(47 * 1.0) = 47` in the driver's float64 environment; and the float64
+product matters: `int(100 * 0.7) = 70` although `100 · (0.7 as a rational) < 70` -/
+example : numRat.mulTrunc 48 1 = 48 ∧ numRat.mulTrunc 47 1 = 47 ∧
+    numRat.mulTrunc 100 (3152519739159347 / 4503599627370496) = 70 ∧
+    ((100 : Rat) * (3152519739159347 / 4503599627370496)).floor = 69 := by
+  decide +kernel
 
 /-- **`np` and `stream` pixels are equal**, not merely close, under any interpretation of the
 primitives in which bottom/right zero-padding commutes with the 8-bit round trip. -/
 theorem np_stream_pixels_equal {P : Type} (I : Interp R P)
     (hcomm : ∀ (m : Nat) (p : P), I.padStride m (I.quant8 p) = I.quant8 (I.padStride m p))
     (N : Num R) (cfg : Cfg R) (fr : Frame R) (k : Nat)
-    (hc : cfg.mt = .centered → cfg.scale = 1 ∧ (∀ n : Nat, N.trunc (N.cast n * 1) = n) ∧
+    (hc : cfg.mt = .centered → cfg.scale = 1 ∧
+      (N.mulTrunc cfg.cropH 1 = cfg.cropH ∧ N.mulTrunc cfg.cropW 1 = cfg.cropW) ∧
       k < (nonEmpty fr.insts).length) :
     I.eval (sampleOf N .np cfg fr k).img = I.eval (sampleOf N .stream cfg fr k).img := by
   cases hmt : cfg.mt with
@@ -265,6 +276,70 @@ theorem np_chunks_existing_serves_directory (N : Num R) (cfg cfg' : Cfg R)
       = items.map fun it => sampleOf N .np cfg it.1 it.2 := by
   simp [npDataset]
 
+/-! ## glue: `max_instances` of the validation chunks -/
+
+theorem processLf_take (m : Nat) (l : List (Inst R)) :
+    (processLf m l).1.take (nonEmpty l).length = nonEmpty l := by
+  unfold processLf
+  by_cases h : m ≠ 1
+  · simp only [if_pos h]; exact List.take_left' rfl
+  · simp only [if_neg h]; exact List.take_length
+
+theorem take_applyResizerPts (s : R) (n : Nat) (l : List (Inst R)) :
+    (applyResizerPts s l).take n = applyResizerPts s (l.take n) := by
+  unfold applyResizerPts; split <;> simp [List.map_take]
+
+theorem take_applyResizerCen (s : R) (n : Nat) (l : List (Pt R)) :
+    (applyResizerCen s l).take n = applyResizerCen s (l.take n) := by
+  unfold applyResizerCen; split <;> simp [List.map_take]
+
+/-- **Whatever `max_instances` the chunk functions are handed** (e.g. the TRAIN labels' maximum for
+the validation chunks, `get_bin_files.py:43`), only the number of trailing all-NaN rows can differ:
+the first `num_instances` rows of `instances` (bottom-up) resp. `centroids` (centroid model) — the
+rows the targets are drawn from — are the same as the torch dataset's. -/
+theorem val_glue_only_padding (N : Num R) (cfg : Cfg R) (fr : Frame R) (k : Nat) :
+    (cfg.mt = .bottomup →
+      (sampleOf N .stream cfg fr k).instances.take (sampleOf N .stream cfg fr k).numInstances
+        = (sampleOf N .mem cfg fr k).instances.take (sampleOf N .mem cfg fr k).numInstances) ∧
+    (cfg.mt = .centroid → 0 < cfg.scale →
+      (sampleOf N .stream cfg fr k).centroids.take (sampleOf N .stream cfg fr k).numInstances
+        = (sampleOf N .mem cfg fr k).centroids.take (sampleOf N .mem cfg fr k).numInstances) := by
+  constructor
+  · intro h
+    simp [sampleOf, sampleOfH, h, torchPlain, streamPlain, dsMaxH, dsMaxW, dsMaxInst, Tree.current,
+      processLf_num, take_applyResizerPts, ← List.map_take, processLf_take]
+  · intro h hs
+    have key : ∀ l : List (Inst R), applyResizerCen cfg.scale (l.map (centroidOf cfg.anchor))
+        = (applyResizerPts cfg.scale l).map (centroidOf cfg.anchor) := by
+      intro l
+      unfold applyResizerCen applyResizerPts
+      split
+      · rfl
+      · exact (map_centroidOf_scale cfg.scale hs cfg.anchor _).symm
+    simp only [sampleOf, sampleOfH, h, torchCentroid, streamCentroid, dsMaxH, dsMaxW, Tree.current,
+      processLf_num, if_true, key, ← List.map_take, take_applyResizerPts, processLf_take]
+
+/-- the padding itself does differ: 1 animal, torch dataset built from labels with at most 1 instance,
+chunks padded to the train labels' 3 -/
+theorem val_glue_counterexample :
+    let cfg := { cfg1 with maxInstances := 1, chunkMaxInst := some 3 }
+    let fr : Frame Rat := { h := 96, w := 128, c := 1, insts := [[some (8, 8), some (16, 12)]] }
+    (sampleOf numRat .mem cfg fr 0).instances.length = 1 ∧
+    (sampleOf numRat .stream cfg fr 0).instances.length = 3 := by
+  decide +kernel
+
+/-- `use_existing_chunks = True` serves whatever the directory holds: after a dataset with 3 items and
+a later rewrite by a dataset with 1 item, 3 samples are served and the last two are the first
+dataset's (finding F-C18e; the rewrite does not remove surplus files). -/
+theorem np_chunks_existing_dirty_counterexample :
+    let fr : Frame Rat := { h := 96, w := 128, c := 1, insts := [[some (8, 8), some (16, 12)]] }
+    let cfgA := { cfg1 with scale := 1 }
+    let dirA := (npDataset numRat false [] cfgA [(fr, 0), (fr, 0), (fr, 0)]).1
+    let dirB := (npDataset numRat false dirA cfg1 [(fr, 0)]).1
+    (npDataset numRat true dirB cfg1 [(fr, 0)]).2.length = 3 ∧
+    ((npDataset numRat true dirB cfg1 [(fr, 0)]).2.drop 1) = dirA.drop 1 := by
+  decide +kernel
+
 /-! ## number of samples per frame -/
 
 /-- a frame with at least one non-empty instance yields the same number of samples everywhere -/
@@ -305,12 +380,12 @@ theorem erase_eq_of_pixelsAgree {m n s : Sample R} (h : PixelsAgree m n s) :
 
 /-- at scale 1 the three frameworks generate the same targets, for every model type -/
 theorem targets_agree_scale1 (N : Num R) (hd : Heads R) (raw : Nat × Nat × Nat) (cfg : Cfg R) (fr : Frame R)
-    (k : Nat) (hs : cfg.scale = 1)
-    (hN : ∀ n : Nat, N.trunc (N.cast n * 1) = n)
+    (k : Nat) (hs : cfg.scale = 1) (hglue : SameGlue cfg) (hne : nonEmpty fr.insts ≠ [])
+    (hN : N.mulTrunc cfg.cropH 1 = cfg.cropH ∧ N.mulTrunc cfg.cropW 1 = cfg.cropW)
     (hk : cfg.mt = .centered → k < (nonEmpty fr.insts).length) :
     targetsOf N raw cfg.mt hd (sampleOf N .np cfg fr k) = targetsOf N raw cfg.mt hd (sampleOf N .mem cfg fr k) ∧
     targetsOf N raw cfg.mt hd (sampleOf N .stream cfg fr k) = targetsOf N raw cfg.mt hd (sampleOf N .mem cfg fr k) := by
-  obtain ⟨px, cn, cs, nn, ns⟩ := frameworks_agree_scale1 N cfg fr k hs hN hk
+  obtain ⟨px, cn, cs, nn, ns⟩ := frameworks_agree_scale1 N cfg fr k hs hglue hne hN hk
   obtain ⟨e1, e2⟩ := erase_eq_of_pixelsAgree px
   refine ⟨targets_from_same_points N raw cfg.mt hd _ _ e1 (fun _ => cn.1) (fun _ => cn.2.1) (fun _ => nn),
           targets_from_same_points N raw cfg.mt hd _ _ e2 (fun _ => cs.1) (fun _ => cs.2.1) ?_⟩
@@ -321,10 +396,11 @@ theorem targets_agree_scale1 (N : Num R) (hd : Heads R) (raw : Nat × Nat × Nat
 
 /-- single-instance, centroid, bottom-up: the same targets at any positive scale -/
 theorem targets_agree_any_scale (N : Num R) (hd : Heads R) (raw : Nat × Nat × Nat) (cfg : Cfg R) (fr : Frame R)
-    (k : Nat) (hmt : cfg.mt ≠ .centered) (hs : 0 < cfg.scale) :
+    (k : Nat) (hmt : cfg.mt ≠ .centered) (hs : 0 < cfg.scale) (hglue : SameGlue cfg)
+    (hne : nonEmpty fr.insts ≠ []) :
     targetsOf N raw cfg.mt hd (sampleOf N .np cfg fr k) = targetsOf N raw cfg.mt hd (sampleOf N .mem cfg fr k) ∧
     targetsOf N raw cfg.mt hd (sampleOf N .stream cfg fr k) = targetsOf N raw cfg.mt hd (sampleOf N .mem cfg fr k) := by
-  obtain ⟨px, cn, sc, si, nn, ns⟩ := frameworks_agree_any_scale N cfg fr k hmt hs
+  obtain ⟨px, cn, sc, si, nn, ns⟩ := frameworks_agree_any_scale N cfg fr k hmt hs hglue hne
   obtain ⟨e1, e2⟩ := erase_eq_of_pixelsAgree px
   exact ⟨targets_from_same_points N raw cfg.mt hd _ _ e1 (fun _ => cn.1) (fun _ => cn.2.1) (fun _ => nn),
          targets_from_same_points N raw cfg.mt hd _ _ e2 si (fun _ => sc) (fun _ => ns)⟩
@@ -479,6 +555,22 @@ theorem datapipe_eq_function_multiConfmapGen {T : Type} (G : Target R → T)
   · intro hp
     subst hp
     simp [dpMultiConfmapGen, fnMultiConfmaps, ← hnum]
+
+/-- `SizeMatcher` (legacy block) vs `apply_sizematcher`: the same only when the frame already has the
+target size -/
+theorem datapipe_sizematcher_partial (N : Num R) (h w : Nat) :
+    dpSizeMatcher (R := R) h w h w = fnSizeMatch N h w h w := by
+  simp [dpSizeMatcher, fnSizeMatch, sizematchPlan]
+
+/-- F-C18d: on a 96×128 frame with maximum 120×168 the block pads only and leaves the keypoints alone,
+the function rescales to 120×160 (`eff_scale = 5/4`) before padding; on a frame larger than the
+maximum the block raises while the function scales down. -/
+theorem datapipe_sizematcher_counterexample :
+    dpSizeMatcher (R := Rat) 96 128 120 168 = some ((96, 128), 1) ∧
+    fnSizeMatch numRat 96 128 120 168 = some ((120, 160), 5/4) ∧
+    dpSizeMatcher (R := Rat) 120 160 96 128 = none ∧
+    fnSizeMatch numRat 120 160 96 128 = some ((96, 128), 4/5) := by
+  decide +kernel
 
 theorem datapipe_eq_function_pafGen (insts : List (Inst R)) (h w : Nat) (sigma : R) (stride : Nat)
     (edges : List (Nat × Nat)) :
